@@ -27,6 +27,7 @@ PROPS = {
         ],
         "units": [
             regress("C02"),
+            {"run": "^TestRefSelf$", "quick": 300, "thorough": 3000, "single": True},
             {"run": "^TestC02$", "quick": 6000, "thorough": 40000},
         ],
     },
@@ -51,6 +52,7 @@ PROPS = {
         ],
         "units": [
             regress("C03"),
+            {"run": "^TestRefSelf$", "quick": 300, "thorough": 3000, "single": True},
             {"run": "^TestC03$", "quick": 6000, "thorough": 30000},
         ],
     },
@@ -90,6 +92,9 @@ PROPS = {
         "units": [
             regress("C06"),
             {"run": "^TestC06$", "quick": 12000, "thorough": 120000, "timeout_quick": 900},
+            {"fuzz": "FuzzFile", "fuzztime": "90s", "thorough_only": True, "run": "FuzzFile"},
+            {"fuzz": "FuzzBody", "fuzztime": "90s", "thorough_only": True, "run": "FuzzBody"},
+            {"fuzz": "FuzzSchema", "fuzztime": "60s", "thorough_only": True, "run": "FuzzSchema"},
         ],
     },
     "C07": {
@@ -101,6 +106,7 @@ PROPS = {
         ],
         "units": [
             regress("C07"),
+            {"run": "^TestRefSelf$", "quick": 300, "thorough": 3000, "single": True},
             {"run": "^TestC07$", "quick": 200, "thorough": 400},
         ],
     },
@@ -112,6 +118,7 @@ PROPS = {
         ],
         "units": [
             regress("C08"),
+            {"run": "^TestRefSelf$", "quick": 300, "thorough": 3000, "single": True},
             {"run": "^TestC08$", "quick": 300, "thorough": 800},
         ],
     },
@@ -149,6 +156,7 @@ PROPS = {
             regress("C18"),
             {"run": "^TestC18Dates$", "quick": 1, "thorough": 1, "rapid": False},
             {"run": "^TestC18$", "quick": 50000, "thorough": 600000},
+            {"fuzz": "FuzzTime", "fuzztime": "90s", "thorough_only": True, "run": "FuzzTime"},
         ],
     },
     "C19": {
@@ -231,6 +239,7 @@ PROPS = {
         "units": [
             regress("C14"),
             {"run": "^TestC14$", "quick": 20000, "thorough": 150000},
+            {"fuzz": "FuzzSchema", "fuzztime": "90s", "thorough_only": True, "run": "FuzzSchema"},
         ],
     },
     "C17": {
